@@ -500,6 +500,9 @@ class Runner:
                 self.undecided.append((con.qual + '#bounded', 'bounded refutation unsupported: %s' % e))
                 break
             obls = [o for o in ip.obls if o.kind in ('ensures', 'raises')]
+            for o in obls:
+                # recursive spec functions must be unfolded as deep as the unrolling goes, or the search invents values for them
+                o.extra['fuel'] = o.extra.get('fuel', 0) + k + 2
             discharge(obls, self.specs, ip, tier='quick', seed=self.seed, timeout=20)
             sat = [o for o in obls if o.result['verdict'] == 'sat']
             for o in sat:
